@@ -105,11 +105,11 @@ fn rand_leaf_shape(rng: &mut Rng, layers: &[i16]) -> (GdsElement, LeafShape) {
     }
 }
 
-fn strans_of(reflect: bool, quarter: Option<i64>, rng: &mut Rng) -> Option<GdsStrans> {
+fn strans_of(reflect: bool, quarter: Option<i64>, rng: &mut Rng, mag_one_in: u64) -> Option<GdsStrans> {
     if !reflect && quarter.is_none() && rng.bool() {
         return None;
     }
-    Some(GdsStrans { reflected: reflect, angle: quarter.map(|q| *rng.pick(&[90.0 * q as f64, 90.0 * q as f64 - 360.0, 90.0 * q as f64 + 360.0])), mag: if rng.chance(1, 5) { Some(1.0) } else { None }, ..Default::default() })
+    Some(GdsStrans { reflected: reflect, angle: quarter.map(|q| *rng.pick(&[90.0 * q as f64, 90.0 * q as f64 - 360.0, 90.0 * q as f64 + 360.0])), mag: if rng.chance(1, mag_one_in) { Some(1.0) } else { None }, ..Default::default() })
 }
 
 struct GenLib {
@@ -189,7 +189,7 @@ fn gen_valid(rng: &mut Rng, big_arrays: bool) -> GenLib {
                 let quarter = if rng.chance(1, 4) { None } else { Some(rng.range(0, 3)) };
                 let loc = (rng.range(-5000, 5000), rng.range(-5000, 5000));
                 if rng.chance(2, 3) {
-                    s.elems.push(GdsStructRef { name: target, xy: gpt(loc), strans: strans_of(reflect, quarter, rng), ..Default::default() }.into());
+                    s.elems.push(GdsStructRef { name: target, xy: gpt(loc), strans: strans_of(reflect, quarter, rng, 5), ..Default::default() }.into());
                 } else {
                     let (cols, rows) = if big_arrays && rng.chance(1, 3) { (rng.range(150, 200), rng.range(170, 200)) } else { (rng.range(1, 6), rng.range(1, 6)) };
                     let (cp, rp) = (rng.range(1, 500), rng.range(1, 500));
@@ -204,7 +204,7 @@ fn gen_valid(rng: &mut Rng, big_arrays: bool) -> GenLib {
                     };
                     let p1 = (loc.0 + cols * cv.0, loc.1 + cols * cv.1);
                     let p2 = (loc.0 + rows * rv.0, loc.1 + rows * rv.1);
-                    s.elems.push(GdsArrayRef { name: target, xy: [gpt(loc), gpt(p1), gpt(p2)], cols: cols as i16, rows: rows as i16, strans: strans_of(reflect, quarter, rng), ..Default::default() }.into());
+                    s.elems.push(GdsArrayRef { name: target, xy: [gpt(loc), gpt(p1), gpt(p2)], cols: cols as i16, rows: rows as i16, strans: strans_of(reflect, quarter, rng, 40), ..Default::default() }.into()); // (array magnification, even 1.0, is documented unsupported: rarely generated)
                 }
             }
         }
@@ -246,9 +246,12 @@ impl C06 {
                 cx.violation(&format!("valid|panic|{}|{}", c.site(), c.norm_msg()), json!({"panic": c.msg, "at": format!("{}:{}", c.file, c.line), "gds": describe()}));
                 return;
             }
-            Ok(Err(_)) => {
-                // an error satisfies the statement; counted for non-vacuity
+            Ok(Err(e)) => {
+                // an error satisfies the statement; counted (by message) for non-vacuity
                 cx.count("valid_import_err");
+                let es = format!("{:?}", e);
+                let msg: String = es.lines().nth(1).unwrap_or(&es).chars().filter(|c| !c.is_ascii_digit()).take(60).collect();
+                cx.count(&format!("valid_import_err.{}", msg.trim()));
                 return;
             }
             Ok(Ok(l)) => l,
